@@ -333,6 +333,20 @@ spec fn pma_valid<V: Serializable>(a: DoubleArrayAhoCorasick<V>) -> bool {
 spec fn pma_ser<V: Serializable>(a: DoubleArrayAhoCorasick<V>) -> Seq<u8> {
     a.states.vser_spec() + a.outputs.vser_spec() + a.match_kind.ser_spec() + a.num_states.ser_spec()
 }
+spec fn pma_r3<V: Serializable>(a: DoubleArrayAhoCorasick<V>, t: Seq<u8>) -> Seq<u8> { a.num_states.ser_spec() + t }
+spec fn pma_r2<V: Serializable>(a: DoubleArrayAhoCorasick<V>, t: Seq<u8>) -> Seq<u8> { a.match_kind.ser_spec() + pma_r3(a, t) }
+spec fn pma_r1<V: Serializable>(a: DoubleArrayAhoCorasick<V>, t: Seq<u8>) -> Seq<u8> { a.outputs.vser_spec() + pma_r2(a, t) }
+proof fn lemma_pma_split<V: Serializable>(a: DoubleArrayAhoCorasick<V>, t: Seq<u8>)
+    ensures pma_ser(a) + t == a.states.vser_spec() + pma_r1(a, t),
+        pma_r2(a, t).take(1) == a.match_kind.ser_spec(), pma_r2(a, t).skip(1) == pma_r3(a, t), pma_r2(a, t).len() >= 5,
+        pma_r3(a, t).take(4) == a.num_states.ser_spec(), pma_r3(a, t).skip(4) == t,
+{
+    assert(pma_ser(a) + t =~= a.states.vser_spec() + pma_r1(a, t));
+    assert(pma_r2(a, t).take(1) =~= a.match_kind.ser_spec());
+    assert(pma_r2(a, t).skip(1) =~= pma_r3(a, t));
+    assert(pma_r3(a, t).take(4) =~= a.num_states.ser_spec());
+    assert(pma_r3(a, t).skip(4) =~= t);
+}
 spec fn pma_eq<V: Serializable>(a: DoubleArrayAhoCorasick<V>, b: DoubleArrayAhoCorasick<V>) -> bool {
     a.states@ == b.states@ && a.outputs@ == b.outputs@ && a.match_kind == b.match_kind && a.num_states == b.num_states
 }
@@ -357,50 +371,58 @@ spec fn pma_eq<V: Serializable>(a: DoubleArrayAhoCorasick<V>, b: DoubleArrayAhoC
     let ghost s0 = source@;
     proof {
         let (a0, t0) = choose|a: Self, t: Seq<u8>| pma_valid(a) && s0 == pma_ser(a) + t;
-        assert(s0 =~= a0.states.vser_spec() + (a0.outputs.vser_spec() + a0.match_kind.ser_spec() + a0.num_states.ser_spec() + t0));
+        lemma_pma_split(a0, t0);
     }
 //@}
 //@after 1 let (states, source) = Vec::<State>::deserialize_from_slice(source);{
     let ghost s1 = source@;
     proof {
-        assert forall|a: Self, t: Seq<u8>| pma_valid(a) && s0 == pma_ser(a) + t implies
-            states@ == a.states@ && s1 == a.outputs.vser_spec() + (a.match_kind.ser_spec() + a.num_states.ser_spec() + t) by {
-            let r1 = a.outputs.vser_spec() + a.match_kind.ser_spec() + a.num_states.ser_spec() + t;
-            assert(s0 =~= a.states.vser_spec() + r1);
-            assert(r1 =~= a.outputs.vser_spec() + (a.match_kind.ser_spec() + a.num_states.ser_spec() + t));
+        assert forall|a: Self, t: Seq<u8>| pma_valid(a) && s0 == pma_ser(a) + t implies states@ == a.states@ && s1 == pma_r1(a, t) by {
+            lemma_pma_split(a, t);
         }
         let (a0, t0) = choose|a: Self, t: Seq<u8>| pma_valid(a) && s0 == pma_ser(a) + t;
-        assert(s1 == a0.outputs.vser_spec() + (a0.match_kind.ser_spec() + a0.num_states.ser_spec() + t0));
+        assert(s1 == a0.outputs.vser_spec() + pma_r2(a0, t0));
     }
 //@}
 //@after 1 let (outputs, source) = Vec::<Output<V>>::deserialize_from_slice(source);{
     let ghost s2 = source@;
     proof {
-        assert forall|a: Self, t: Seq<u8>| pma_valid(a) && s0 == pma_ser(a) + t implies
-            outputs@ == a.outputs@ && s2 == a.match_kind.ser_spec() + a.num_states.ser_spec() + t by {
-            let r2 = a.match_kind.ser_spec() + a.num_states.ser_spec() + t;
-            assert(s1 == a.outputs.vser_spec() + r2);
-            assert(a.outputs.vvalid());
+        assert forall|a: Self, t: Seq<u8>| pma_valid(a) && s0 == pma_ser(a) + t implies outputs@ == a.outputs@ && s2 == pma_r2(a, t) by {
+            assert(s1 == pma_r1(a, t));
+            assert(s1 == a.outputs.vser_spec() + pma_r2(a, t));
         }
         let (a0, t0) = choose|a: Self, t: Seq<u8>| pma_valid(a) && s0 == pma_ser(a) + t;
-        assert(s2 == a0.match_kind.ser_spec() + a0.num_states.ser_spec() + t0);
-        assert(s2.len() >= 5);
+        lemma_pma_split(a0, t0);
     }
 //@}
 //@after 1 let (match_kind, source) = MatchKind::deserialize_from_slice(source);{
     let ghost s3 = source@;
     proof {
-        assert forall|a: Self, t: Seq<u8>| pma_valid(a) && s0 == pma_ser(a) + t implies
-            match_kind == a.match_kind && s3 =~= a.num_states.ser_spec() + t by {
-            assert(s2.take(1) =~= a.match_kind.ser_spec());
+        assert forall|a: Self, t: Seq<u8>| pma_valid(a) && s0 == pma_ser(a) + t implies match_kind == a.match_kind && s3 == pma_r3(a, t) by {
+            lemma_pma_split(a, t);
+            assert(s2 == pma_r2(a, t));
         }
+        let (a0, t0) = choose|a: Self, t: Seq<u8>| pma_valid(a) && s0 == pma_ser(a) + t;
+        assert(s3.len() >= 4) by { lemma_pma_split(a0, t0); a0.num_states.lemma_ser_len(); assert(s3 == pma_r3(a0, t0)); }
     }
 //@}
 //@after 1 let (num_states, source) = u32::deserialize_from_slice(source);{
     proof {
+        assert forall|a: Self, t: Seq<u8>| pma_valid(a) && s0 == pma_ser(a) + t implies num_states == a.num_states && source@ == t by {
+            lemma_pma_split(a, t);
+            assert(s3 == pma_r3(a, t));
+        }
+    }
+//@}
+//@before 1 Self {{
+    proof {
         assert forall|a: Self, t: Seq<u8>| pma_valid(a) && s0 == pma_ser(a) + t implies
-            num_states == a.num_states && source@ =~= t by {
-            assert(s3.take(4) =~= a.num_states.ser_spec());
+            states@ == a.states@ && outputs@ == a.outputs@ && match_kind == a.match_kind && num_states == a.num_states && source@ == t
+            && states.vvalid() && outputs.vvalid()
+            && states.vser_spec() == a.states.vser_spec() && outputs.vser_spec() == a.outputs.vser_spec() by {
+            assert(s1 == pma_r1(a, t));
+            assert(s2 == pma_r2(a, t));
+            assert(s3 == pma_r3(a, t));
         }
     }
 //@}
